@@ -1141,6 +1141,96 @@ def result {α : Type} (m : W α) (w : World) : Option α :=
   | .ok a _ => some a
   | .panic _ _ => none
 
+
+/-! Worlds around one `cache.addTable` / `cache.removeTable` call, to instantiate `TableAdded` /
+    `TableRemoved` with the model's own steps. -/
+
+/-- after `setup` -/
+def wA : World := (setup (World.init 2 2)).state
+def p2 : Ent := ((result setup (World.init 2 2)).map (·.2.1)).getD Ent.zero
+/-- after `addChild p2`: table 2 was created in archetype 1 and announced to the cache -/
+def wB : World := (addChild p2 wA).state
+/-- `wB` with the cache rolled back: the state in which `createTable` calls `cache.addTable` -/
+def wB0 : World := { wB with cache := wA.cache }
+/-- `wB` after the storage part of freeing table 1 (`archetype.FreeTable` + `isFree`), the state
+    in which `cleanupArchetypes` calls `cache.removeTable` -/
+def wR : World := (wB.modArch 1 fun A => A.freeTable 1).modTbl 1 fun T => { T with isFree := true }
+
+theorem demo_tableAdded : TableAdded wA wB0 1 2 := by
+  have hlenA : wA.archetypes.length = 2 := by decide +kernel
+  have hlenB : wB0.archetypes.length = 2 := by decide +kernel
+  have htA : wA.tables.length = 2 := by decide +kernel
+  have htB : wB0.tables.length = 3 := by decide +kernel
+  have hA0 : wA.archetypes[0]? = some (wA.arch 0) := by decide +kernel
+  have hA1 : wA.archetypes[1]? = some (wA.arch 1) := by decide +kernel
+  have hB1 : wB0.archetypes[1]? = some (wB0.arch 1) := by decide +kernel
+  have hT0 : (wA.arch 0).tables.tables = [0] := by decide +kernel
+  have hT1 : (wA.arch 1).tables.tables = [1] := by decide +kernel
+  have hT1' : (wB0.arch 1).tables.tables = [1, 2] := by decide +kernel
+  refine { other := ?_, here := ?_, tbl := ?_, cache := rfl, inactive := ?_, active := ?_,
+           back := by decide +kernel }
+  · intro a' h
+    by_cases h0 : a' = 0
+    · subst h0; decide +kernel
+    rw [List.getElem?_eq_none (by rw [hlenB]; omega), List.getElem?_eq_none (by rw [hlenA]; omega)]
+  · refine ⟨wA.arch 1, wB0.arch 1, hA1, hB1, by decide +kernel, ?_⟩
+    intro t' ht
+    rw [hT1, hT1']
+    simp only [List.mem_cons, List.not_mem_nil, or_false]
+    omega
+  · intro t' ht
+    by_cases h0 : t' = 0
+    · subst h0; decide +kernel
+    by_cases h1 : t' = 1
+    · subst h1; decide +kernel
+    unfold tbl
+    rw [List.getD_eq_getElem?_getD, List.getD_eq_getElem?_getD,
+      List.getElem?_eq_none (by rw [htB]; omega), List.getElem?_eq_none (by rw [htA]; omega)]
+  · intro a' B hB
+    by_cases h0 : a' = 0
+    · subst h0; rw [hA0] at hB; injection hB with hB; subst hB; rw [hT0]; simp
+    by_cases h1 : a' = 1
+    · subst h1; rw [hA1] at hB; injection hB with hB; subst hB; rw [hT1]; simp
+    rw [List.getElem?_eq_none (by rw [hlenA]; omega)] at hB; cases hB
+  · intro A' hA'
+    rw [hB1] at hA'; injection hA' with hA'; subst hA'; rw [hT1']; simp
+
+theorem demo_tableRemoved : TableRemoved wB wR 1 1 := by
+  have hlenB : wB.archetypes.length = 2 := by decide +kernel
+  have hlenR : wR.archetypes.length = 2 := by decide +kernel
+  have htB : wB.tables.length = 3 := by decide +kernel
+  have htR : wR.tables.length = 3 := by decide +kernel
+  have hR0 : wR.archetypes[0]? = some (wR.arch 0) := by decide +kernel
+  have hR1 : wR.archetypes[1]? = some (wR.arch 1) := by decide +kernel
+  have hB1 : wB.archetypes[1]? = some (wB.arch 1) := by decide +kernel
+  have hT0 : (wR.arch 0).tables.tables = [0] := by decide +kernel
+  have hT1 : (wR.arch 1).tables.tables = [2] := by decide +kernel
+  have hT1' : (wB.arch 1).tables.tables = [1, 2] := by decide +kernel
+  refine { other := ?_, here := ?_, tbl := ?_, cache := by decide +kernel, inactive := ?_ }
+  · intro a' h
+    by_cases h0 : a' = 0
+    · subst h0; decide +kernel
+    rw [List.getElem?_eq_none (by rw [hlenR]; omega), List.getElem?_eq_none (by rw [hlenB]; omega)]
+  · refine ⟨wB.arch 1, wR.arch 1, hB1, hR1, by decide +kernel, ?_⟩
+    intro t' ht
+    rw [hT1, hT1']
+    simp only [List.mem_cons, List.not_mem_nil, or_false]
+    omega
+  · intro t' ht
+    by_cases h0 : t' = 0
+    · subst h0; decide +kernel
+    by_cases h2 : t' = 2
+    · subst h2; decide +kernel
+    unfold tbl
+    rw [List.getD_eq_getElem?_getD, List.getD_eq_getElem?_getD,
+      List.getElem?_eq_none (by rw [htR]; omega), List.getElem?_eq_none (by rw [htB]; omega)]
+  · intro a' B hB
+    by_cases h0 : a' = 0
+    · subst h0; rw [hR0] at hB; injection hB with hB; subst hB; rw [hT0]; simp
+    by_cases h1 : a' = 1
+    · subst h1; rw [hR1] at hB; injection hB with hB; subst hB; rw [hT1]; simp
+    rw [List.getElem?_eq_none (by rw [hlenR]; omega)] at hB; cases hB
+
 end CacheDemo
 end World
 end Ark
